@@ -200,6 +200,14 @@ def _make_state(datas, world, q):
         return ElementSubsetState([int(r) for r in q['rows']], data=src)
     if sel == 'mask':
         return MaskSubsetState(flags.reshape(shape) > 0.5, src.pixel_component_ids)
+    if sel == 'elem-copy':
+        # what every combination, inversion and edit mode holds: a COPY of the row-number selection
+        return ElementSubsetState([int(r) for r in q['rows']], data=src).copy()
+    if sel == 'elem-not-not':
+        return ~(~ElementSubsetState([int(r) for r in q['rows']], data=src))
+    if sel == 'elem-or':
+        rows = [int(r) for r in q['rows']]
+        return ElementSubsetState(rows[:1], data=src) | ElementSubsetState(rows[1:], data=src)
     if sel in ('and', 'xor', 'or', 'andnot'):
         # a composite of two selections that are both defined on the source table: the rows it selects THERE are
         # what crosses the join (q['rows'] = the combination of q['a'] and q['b'], computed by queries())
@@ -538,7 +546,8 @@ def fam_dtypes(spec, pal):
 def fam_reg(spec, pal):
     _, shape, reg = spec
     ncl, ncr = NCOLS[shape]
-    qs = dict(pairs=[['L', 'R'], ['R', 'L']], sels=['flag', 'elem', 'mask', 'and', 'xor', 'or', 'andnot'], views='short')
+    qs = dict(pairs=[['L', 'R'], ['R', 'L']], sels=['flag', 'elem', 'mask', 'elem-copy', 'elem-not-not', 'elem-or', 'and', 'xor', 'or', 'andnot'],
+              views='short')
     for lt in tables(ncl, 2, 2):
         for rt in tables(ncr, 2, 2):
             yield pair_world('reg', shape, ['i64'], lt, rt, pal, reg=reg, qs=qs)
